@@ -16,8 +16,16 @@ def station_limits(rep, tier, sd):
     n = 8 if tier == "quick" else 80
     dist = Counter()
     for strategy in ("peak_load_window", "flex_window", "balanced_market", "balanced", "greedy"):
-        for _ in range(n):
+        for k_ in range(n * (3 if strategy == "peak_load_window" else 1)):
             case = svc.gen(rng, strategy)
+            if strategy == "peak_load_window" and k_ % 2:
+                # tapering curve at a station rated below the vehicle's power, peak windows inside the standing time
+                comp = case["js"]["components"]
+                vt = comp["vehicle_types"]["vt"]
+                P = max(p for _, p in vt["charging_curve"])
+                vt["charging_curve"] = [[0, P], [0.8, P], [1, P / 4]]
+                for c_ in comp["charging_stations"].values():
+                    c_["max_power"] = P / 2
             js = svc.finish(case)
             if js is None:
                 continue
